@@ -30,6 +30,7 @@ theorem c05_source_facts :
     IpcHub.Gen.registTaskGuard = ["ok", "!(oldS.ConsumerCount() <= 0)"] ∧
     IpcHub.Gen.unregistCalls = ["registLock.Lock()", "defer registLock.Unlock()", "streams.Load(s.path)",
       "streams.Delete(s.path)", "s.Close()"] ∧
+    IpcHub.Gen.unregistCallsConds = ["ok", "s2 == s"] ∧
     IpcHub.Gen.unregistDeleteGuard = ["ok", "s2 == s"] ∧
     IpcHub.Gen.unregistCloseGuard = [] ∧
     IpcHub.Gen.registLocked = true ∧ IpcHub.Gen.unregistLocked = true ∧ IpcHub.Gen.registLockIsMutex = true ∧
@@ -46,6 +47,14 @@ theorem c05_source_facts :
     IpcHub.Gen.idleNextConds = ["r.closed"] ∧
     IpcHub.Gen.idleCountsFlv = true ∧ IpcHub.Gen.idleNilSafe = true ∧
     IpcHub.Gen.getOrCreateTaskGuard = ["r != nil", "psf.Can(r.URL)", "err == nil", "!r.KeepAlive"] ∧
+    IpcHub.Gen.getOrCreateCalls = ["Get(path)", "utils.CanonicalPath(path)", "route.Match(path)", "psf.Can(r.URL)",
+      "psf.Create(r.Pattern, r.URL)", "runZeroConsumersCloseTask(s, StreamNoConsumer)"] ∧
+    IpcHub.Gen.streamCloseConds = ["atomic.LoadInt32(&s.status) != StreamOK", "status != StreamReplaced", "s.tsMuxer != nil"] ∧
+    IpcHub.Gen.infosSort = ["sort.Slice", "ss[i].Path < ss[j].Path"] ∧
+    IpcHub.Gen.infosReturns = ["count, ss", "count, ss[:pagesize]"] ∧
+    IpcHub.Gen.getStreamInfoCalls = ["media.Get(path)", "rt.Info(includeCS)"] ∧
+    IpcHub.Gen.streamInfoFields = ["Path=s.path", "ConsumptionCount=s.ConsumerCount()"] ∧
+    IpcHub.Gen.unregistAllCalls = ["streams.Range", "streams.Delete(key)", "s.Close()"] ∧
     IpcHub.Gen.consumerCountExpr = "s.consumptions.Count() + s.flvConsumptions.Count()" ∧
     IpcHub.Gen.newStreamPath = "utils.CanonicalPath(path)" ∧
     IpcHub.Gen.stopStreamCalls = ["media.Get(path)", "rt.Close()"] ∧
@@ -60,8 +69,9 @@ theorem c05_source_facts :
 theorem c05_facts_good : genFacts = good := by decide
 
 /-- **Refinement (headline).**  For EVERY history of registry operations — create / register /
-    unregister / close / API-stop / consumer join and leave / idle ticks / HLS access / lookups under any
-    spelling / count / listing / liveness probes, of any length over any paths — every observation of
+    unregister / close / API-stop / consumer join and leave / idle ticks / HLS access / passing of time /
+    lookups under any spelling / count / paged listing / per-stream info (path and consumer count of the
+    stream a path resolves to) / liveness probes, of any length over any paths — every observation of
     the model of the current source equals the observation of the specification `Spec/Registry.lean`:
     a lookup returns the most recently registered, not since unregistered, not closed stream of the
     canonical path; counts and listings are those of the live streams; the idle task closes exactly when
@@ -313,6 +323,24 @@ example :
 example :
     let st := run asciiCfg genFacts State.empty [.new ['/', 'a'] false, .regist 0, .postIdle 0]
     (tick genFacts st 0 300).2 = .ran true ∧ isOk st 0 = true ∧ isOk (tick genFacts st 0 300).1 0 = false := by decide
+
+/-- `c05_idle_only_when_unused`, the recency clause with time passing: an HLS access 1000 s ago is recent
+    for a one-hour period (the stream stays), 6000 s ago it is not (the stream is closed); and a stream with
+    an attached FLV viewer stays whatever the age — model and specification agree (`c05_refines`) -/
+example :
+    let ops : List Op := [.new ['/', 'a'] true, .regist 0, .postIdle 0, .advance 1000, .tick 0 3600, .get ['/', 'a'],
+      .advance 5000, .tick 0 3600, .get ['/', 'a']]
+    runObs asciiCfg genFacts State.empty ops =
+      [.sid (some 0), .unit, .unit, .unit, .tick (.ran false), .sid (some 0), .unit, .tick (.ran true), .sid none] ∧
+    specObs asciiCfg Abs.empty ops = runObs asciiCfg genFacts State.empty ops := by decide
+
+/-- the per-stream report of a path (GET /api/v1/streams/{path}): the canonical path the stream was created
+    under and the consumers attached to it in both tables; nothing for a closed stream -/
+example :
+    let ops : List Op := [.new [' ', 'A'] false, .regist 0, .join 0 false, .join 0 true, .info ['a', '/', '.'],
+      .close 0, .info ['/', 'a']]
+    runObs asciiCfg genFacts State.empty ops =
+      [.sid (some 0), .unit, .cid (some 1), .cid (some 2), .sinfo (some (['/', 'a'], 2)), .unit, .sinfo none] := by decide
 
 /-- `c05_unregist_keeps_successor`: stream 0 was replaced by stream 1; unregistering 0 keeps 1 -/
 example :
